@@ -420,7 +420,7 @@ func checkC04(cx *Ctx, r *Report) {
 
 	// --- canonicaliser -------------------------------------------------------------------------------------
 	cx.checkCanonicalizer(r)
-	r.Min("R-VFG", 9)
+	r.Min("R-VFG", 6)
 }
 
 func keysOf(m map[string]bool) []string {
